@@ -54,6 +54,9 @@ class FoersterRelaxationTensor(RelaxationTensor):
 
     def initialize(self):
         
+        # the data calculated below are not secular, whatever was done
+        # to the data they replace
+        self.is_secular = False
         #
         # Tensor data
         #
